@@ -1,4 +1,4 @@
-import RgVerif.Lemmas.Decode
+import RgVerif.Lemmas.DecodeUtf8
 /-
 C17 — transcoded input is searched as its UTF-8 equivalent.
 Model: `RgVerif.Decode` (searcher/mod.rs transcoding detour, hiargs encoding mode, encoding_rs_io's
@@ -36,6 +36,22 @@ theorem utf16_implements (other : Nat → Bytes → Bytes) (be : Bool) :
   intro bs hb
   rw [utf16_decode_eq, decode16_ownMark be bs hb]
   cases be <;> simp [transcode, encOf, ownMarkLen]
+
+/-- The streaming UTF-8 decoder (pending incomplete sequence, lead-specific bounds for the second byte, one
+U+FFFD per maximal malformed subpart, the offending byte looked at afresh, own mark removed) implements
+the whole-string reference `transcode8`. -/
+theorem utf8_implements (other : Nat → Bytes → Bytes) : Implements other .utf8 utf8Machine := by
+  intro bs _
+  rw [utf8_decode_eq]
+  simp [transcode, ownMarkLen]
+
+/-- A single-byte table decoder (windows-1252 = the labels latin1 / iso-8859-1 / ascii, …) implements its
+table. -/
+theorem table_implements (tables : Nat → Nat → Nat) (id : Nat) :
+    Implements (fun id bs => bs.flatMap fun b => utf8Encode (tables id b)) (.other id) (tableMachine (tables id)) := by
+  intro bs _
+  rw [table_decode_eq]
+  simp [transcode, ownMark]
 
 /-! ### Memory maps and slices take the same detour -/
 
@@ -230,6 +246,39 @@ theorem C17 (other : Nat → Bytes → Bytes) (m8 : Machine) (mo : Nat → Machi
         exfalso
         unfold bomOf at hbom
         split at hbom <;> simp_all
+
+/-- `C17` with every decoder modelled (UTF-16, UTF-8, single-byte tables): no hypothesis about decoders is
+left. (Multi-byte table encodings such as shift_jis remain outside: validated by the correspondence run.) -/
+theorem C17_modelled (tables : Nat → Nat → Nat) (c : Cfg) (chunks : List Bytes)
+    (hb : ∀ b ∈ chunks.flatten, b < 256) (hg : c17Guard c chunks.flatten = true) :
+    readerOutput c (machines utf8Machine fun id => tableMachine (tables id)) chunks =
+      searched (fun id bs => bs.flatMap fun b => utf8Encode (tables id b)) c chunks.flatten :=
+  C17 _ utf8Machine _ (utf8_implements _) (fun id => table_implements tables id) c chunks hb hg
+
+/-! ### the end-of-input flush under the multi-line strategy -/
+
+/-- Full statement: whatever room the caller offers, the decoder's end-of-input output arrives complete. -/
+def final_flush_full : Prop := ∀ (room : Nat) (flush : Bytes), 0 < room → finalFlush room flush = flush
+
+/-- It fails on the current tree (known finding `multiline-reader-final-replacement-truncated`): with 2 bytes
+of room only `EF BF` of a final U+FFFD is delivered — `rg -U --mmap` / `rg -U … -` (stdin) lose the
+replacement character that ends the transcoding of an input with a truncated last character. -/
+theorem final_flush_full_fails : ¬ final_flush_full := by
+  intro h
+  have := h 2 (utf8Encode replacement) (by decide)
+  revert this
+  decide
+
+/-- **Proved part**: with at least 4 bytes of room (every read of the line-by-line searchers), or when the
+flush fits, nothing is lost. -/
+theorem final_flush_partial (room : Nat) (flush : Bytes) (h : 4 ≤ room ∨ flush.length ≤ room) :
+    finalFlush room flush = flush := by
+  unfold finalFlush
+  split
+  · rcases h with h | h
+    · omega
+    · exact List.take_of_length_le h
+  · rfl
 
 /-- Non-vacuity of the guard: a UTF-16LE file with mark, an astral character, a lone surrogate and an odd
 byte count; a UTF-8 file with mark and valid content; a label without mark. -/
